@@ -216,6 +216,11 @@ def _segment(draw, o, groups, chans, counters, version, si):
     else:
         act = list(chans)
     inter = o['interleaved'] and draw(st.integers(0, 3)) == 0
+    flag_only = False
+    if inter and len(act) == 1 and act[0][2] == 'str':
+        # some writers set the interleaved flag on a segment holding a single string channel: it is laid out contiguously
+        inter = False
+        flag_only = True
     if inter:
         act = [c for c in act if c[2] != 'str']
     nlo = 0 if o['zero_n'] else 1
@@ -284,6 +289,8 @@ def _segment(draw, o, groups, chans, counters, version, si):
                 ent['props'] = draw(prop_list())
     seg = {'be': be, 'interleaved': inter, 'version': version, 'meta': True, 'newlist': True,
            'entries': entries, 'active': active, 'nchunks': nchunks, 'data': data}
+    if flag_only:
+        seg['toc_extra'] = 1 << 5
     if o['pad'] and draw(st.integers(0, 5)) == 0:
         seg['pad'] = draw(st.integers(1, 9))
     if chunk_bytes == 0 and draw(st.integers(0, 3)) == 0:
